@@ -39,7 +39,8 @@ def render(t):
     if k == 'num':
         return C4.xlit(t[1])
     if k == 'name':
-        return '(%s)' % t[1]
+        # a quoted user base unit is only recognised after a number: (1 'm')
+        return "(1 %s)" % t[1] if t[1].startswith("'") else '(%s)' % t[1]
     if k == 'neg':
         return '(-%s)' % render(t[1])
     if k == 'pow':
@@ -52,6 +53,8 @@ def to_sx(t):
     if k == 'num':
         return [Sym('num'), [t[1].numerator, t[1].denominator]]
     if k == 'name':
+        if t[1].startswith("'"):
+            return [Sym('mul'), [Sym('num'), [1, 1]], [Sym('name'), e_str(t[1])]]
         return [Sym('name'), e_str(t[1])]
     if k == 'neg':
         return [Sym('neg'), to_sx(t[1])]
@@ -372,7 +375,12 @@ def _check(c):
                 c.violation('table-' + thm, {'kind': 'finite-obligation', 'theorem': thm, 'table_entry': e, 'all_failing': ents[:30]})
 
     units = C4.universe(c, t)
+    # user base units written with quotes, spelled like built-in units: distinct base units
+    QUOTED = ["'m'", "'s'", "'N'", "'kg'", "'K'", "'g'", "'J'", "'xyz'", "'USD'", "'percent'"]
+    for qn in QUOTED:
+        units[qn] = C4.Unit(qn, ({'prefix': '', 'sing': qn[1:-1], 'plur': qn[1:-1], 'alias': False, 'base': [(qn[1:-1], Fraction(1))], 'scale': ('s', Fraction(1))}, True))
     g = Gen(c, units)
+    g.common += QUOTED[:6] * 2
 
     # ---- fixed corpus first
     N = lambda n: ('name', n)
@@ -400,6 +408,15 @@ def _check(c):
         ('add', ('mul', Q(1), N('USD')), ('mul', Q(1), N('EUR'))),
         ('add', ('mul', Q(1), N('USD')), ('mul', Q(1), N('kg'))),
         ('add', ('mul', Q(1), N('degree')), ('mul', Q(1), N('radian'))),
+        # units are what their base decomposition says, not how they are spelled
+        ('add', ('mul', Q(2), N("'m'")), ('mul', Q(3), N('m'))),
+        ('add', ('mul', Q(2), N("'m'")), ('mul', Q(3), N("'m'"))),
+        ('conv', ('mul', Q(10), N('N')), N("'N'")),
+        ('conv', ('mul', Q(10), N("'N'")), N('N')),
+        ('sub', ('mul', Q(5), N('kg')), ('mul', Q(1), N("'kg'"))),
+        ('div', ('mul', Q(6), N("'s'")), ('mul', Q(3), N('s'))),
+        ('conv', ('mul', ('mul', Q(2), N("'m'")), N('s')), ('mul', N('m'), N("'s'"))),
+        ('add', ('mul', Q(1), N('K')), ('mul', Q(1), N("'K'"))),
     ]
     trees = [x for x in corpus if all(n in units for n in names_of(x))]
     n_rand = 2500 if c.tier == 'quick' else 40000
@@ -537,8 +554,11 @@ def _check(c):
 
     # ---- pure-number functions reject dimensioned arguments; zero addition
     dimd = [(x, txt, sp[1]) for x, txt, sp in zip(trees, texts, specs)
-            if sp[0] == 'ok' and reduce_dims(sp[1].dims)[0]][: (300 if c.tier == 'quick' else 3000)]
-    forms = ['ln(%s)', 'log2(%s)', 'log10(%s)', '(%s) mod 7', '(%s) xor 3', '(%s)!', '(%s) nCr 2', '(%s) nPr 2', '2^(%s)', '7 mod (%s)', 'fib(%s)']
+            if sp[0] == 'ok' and reduce_dims(sp[1].dims)[0]][: (600 if c.tier == 'quick' else 6000)]
+    dimd += [(None, '%s %s' % (C4.xlit(C4.rand_x(r) or Fraction(1)), u.name), None) for u in r.sample([u for u in units.values() if u.rdims and not u.name.startswith("'")], 150)]
+    forms = ['ln(%s)', 'log2(%s)', 'log10(%s)', 'log(%s)', 'exp(%s)', '(%s) mod 7', '(%s) xor 3', '(%s) and 3', '(%s) or 3', '(%s)!', '(%s) nCr 2', '(%s) nPr 2',
+             '5 nCr (%s)', '2^(%s)', '7 mod (%s)', 'fib(%s)', 'sin(%s)', 'cos(%s)', 'tan(%s)', 'asin(%s)', 'acos(%s)', 'atan(%s)', 'sinh(%s)', 'cosh(%s)',
+             'tanh(%s)', 'asinh(%s)', 'acosh(%s)', 'atanh(%s)', 'arg(%s)', 'cis(%s)', '1 << (%s)', '(%s) >> 1']
     fl, fmeta = [], []
     for x, txt, s in dimd:
         f = r.choice(forms)
@@ -547,7 +567,7 @@ def _check(c):
     evd = dict(zip(texts, ev))
     for inp, txt, o in zip(fl, fmeta, fo):
         c.note_case(inp, True, 'pure-number-function')
-        if evd[txt][0] != 'o':
+        if txt in evd and evd[txt][0] != 'o':
             continue
         if o[0] != 'e':
             c.violation('dimensioned-argument-accepted', {'kind': 'impl-vs-spec', 'input': inp, 'impl': o})
@@ -559,6 +579,49 @@ def _check(c):
         c.note_case('zero+' + txt, True, 'zero-addition')
         if o != ('o', 'true'):
             c.violation('zero-addition-not-a-noop', {'kind': 'impl-vs-spec', 'input': '((%s) + (0 <unit>)) == (%s)' % (txt, txt), 'impl': o})
+
+    # ---- pure-number functions of a dimensionless but SCALED argument use the scale
+    import math
+    def fib(n):
+        a, b = 0, 1
+        for _ in range(n):
+            a, b = b, a + b
+        return a
+    small = [u for u in units.values() if not u.rdims and u.pat == 's' and u.exact and u.coef.denominator == 1 and 2 <= u.coef <= 20 and not u.name.startswith("'")]
+    sc_cases = []
+    for u in small:
+        n = int(u.coef)
+        sc_cases += [('fib(1 %s)' % u.name, fib(n)), ('(1 %s)!' % u.name, math.factorial(n)), ('2^(1 %s)' % u.name, 2 ** n), ('(1 %s) mod 7' % u.name, n % 7),
+                     ('(1 %s) nCr 2' % u.name, n * (n - 1) // 2), ('(2 %s) nPr 1' % u.name, 2 * n), ('(1 %s) xor 1' % u.name, n ^ 1), ('100 mod (1 %s)' % u.name, 100 % n)]
+    sc_cases += [('sin(90 degrees)', 1), ('cos(1 turn)', 1), ('sin(30 degrees) * 2', 1), ('fib(50 percent * 20)', 55), ('(300 percent)!', 6)]
+    so = l2(c, ['(%s) == %d' % (e, v) for e, v in sc_cases])
+    for (e, v), o in zip(sc_cases, so):
+        c.note_case('scaled-arg:' + e, True, 'pure-number-function-scaled-argument')
+        if o != ('o', 'true'):
+            c.violation('pure-number-function-ignores-scale', {'kind': 'impl-vs-spec', 'input': '(%s) == %d' % (e, v), 'impl': o})
+
+    # ---- a zero that permits adding across dimensions must be a one-point exact zero:
+    #      dice expressions (distributions) with units obey the dimension rule like everything else
+    dice = ['(d6 - 1)', '(d4 - d4)', '(2d6 - 2)', '((d6 - 1) * 0 + (d2 - 1))', '(d10 - 1)', 'd6']
+    cl = [us for us in g.by_class.values() if us]
+    dc = []
+    for _ in range(150 if c.tier == 'quick' else 1500):
+        ca, cb = r.sample(cl, 2)
+        A, B, A2 = r.choice(ca), r.choice(cb), r.choice(ca)
+        if any(n.startswith("'") for n in (A, B, A2)):
+            continue
+        d = r.choice(dice)
+        op = r.choice(['+', '-'])
+        dc.append(('(%s %s) %s (%s %s)' % (C4.xlit(C4.rand_x(r) or Fraction(1)), A, op, d, B), 'e'))
+        dc.append(('(%s %s) %s (%s %s)' % (C4.xlit(C4.rand_x(r) or Fraction(1)), A, op, d, A2), 'o'))
+        dc.append(('(%s %s) to %s' % (d, A, B), 'e'))
+    dc += [('4 m + (d6 - 1) kg', 'e'), ('4 m + (d6 - 1) cm', 'o'), ('(d6 - 1) kg + 4 m', 'e'), ('4 m - (d6 - 1) s', 'e')]
+    do = l2(c, [e for e, w in dc])
+    for (e, w), o in zip(dc, do):
+        c.note_case('dice:' + e, True, 'dice-with-units')
+        good = (o[0] == 'e' and classify_error(o[1]) == 'incompatible') if w == 'e' else (o[0] == 'o')
+        if not good:
+            c.violation('dice-dimension', {'kind': 'impl-vs-spec', 'input': e, 'impl': (o[0], o[1][:200]), 'want': 'incompatible error' if w == 'e' else 'a value'})
 
     # ---- regression witnesses of the repaired defect temperature_mix_overwrite (fend commit 1210896),
     #      repeated because the old behaviour depended on the hash order of the run
